@@ -24,7 +24,10 @@ fn fn_of_site(site: &str) -> String {
     let line: usize = line.parse().unwrap_or(0);
     let mut name = format!("{file}:?");
     let is_lock_call = |l: &str| [".read()", ".write()", "try_read_for(", "try_write_for(", "try_write()"].iter().any(|p| l.contains(p));
-    for dir in ["/repo/autosar-data/src", "/repo/autosar-data-specification/src"] {
+    // VERIF_SRC_DIR (development): a frozen copy of the two src directories, so that a collection run is not disturbed by
+    // edits of /repo made while it runs (the line numbers compiled into this binary must match the text that is read here)
+    let base = std::env::var("VERIF_SRC_DIR").unwrap_or_else(|_| "/repo".to_string());
+    for dir in [format!("{base}/autosar-data/src"), format!("{base}/autosar-data-specification/src")] {
         if let Ok(text) = std::fs::read_to_string(format!("{dir}/{file}")) {
             let lines: Vec<&str> = text.lines().collect();
             let mut i = line.min(lines.len());
